@@ -16,8 +16,10 @@ A *unit template* (/verif/units/<name>.u.c) is C text with directives:
                                      constant emitted as `enum { NAME = value };` so that it can be an array bound in C)
   //@ struct FILE CLASS [opts]       generate `struct CLASS` from the real class declaration + static SELF
   //@ enum FILE ENUM PREFIX          generate enum constants from the real header
+  //@ macro FILE NAME                copy a function-like #define (continuation lines included); body rewritten like code
   /*@extract FILE QUALNAME           verbatim function body + spliced contract
      as CNAME | pick N | params SUBSTR | inclass | static | ret EXPR | call a=>b | throws CNAME
+     retself   (method returning Class& through `return *this;` only: emitted as a void function)
      sub RE => REPL | sub* RE => REPL | drop-loop-contract-ok
      contract / loop K  blocks (lines up to the next key)
   @*/
@@ -272,14 +274,31 @@ def rw_quals(text, cnt):
 
 
 def rw_calls(body, calls, cnt):
-    for a, b in calls:
+    for rule in calls:
+        a, b = rule[0], rule[1]
         pat = re.compile(r'(?<![\w\.>])%s\s*\(' % re.escape(a))
         n = len(pat.findall(body))
         if n == 0:
-            raise ExtractionError('call rule %s=>%s did not fire' % (a, b))
+            # a renamed callee that is no longer called is a semantic change of the body, to be judged by the
+            # contract (e.g. a dropped refill), not an extraction break: note it and go on
+            cnt.hit('R9_call_rule_idle:%s' % a)
+            continue
         body = pat.sub(b + '(', body)
         cnt.hit('R9_call', n)
     return body
+
+
+def _is_bare_if_prefix(pre):
+    """pre (statement text before a call) ends in `if ( balanced )`"""
+    pre = pre.rstrip()
+    for mm in re.finditer(r'(?<![\w])if\s*\(', pre):
+        # (text before the `if` -- e.g. a macro invocation written without ';' -- belongs to an earlier statement)
+        try:
+            if match_close(pre, mm.end() - 1) == len(pre) - 1:
+                return True
+        except (ExtractionError, IndexError):
+            pass
+    return False
 
 
 def rw_after_throw(body, throwers, retexpr, cnt):
@@ -323,6 +342,13 @@ def rw_after_throw(body, throwers, retexpr, cnt):
                 body = body[:j + 1] + ins + body[j + 1:]
                 cnt.hit('R8_after_call')
                 pos = j + 1 + len(ins)
+            elif body[j] == ';' and _is_bare_if_prefix(pre):
+                # `if (cond) f(..);` / `else if (cond) f(..);` without braces: the call is the whole controlled statement
+                call = body[m.start():pc + 1]
+                new = '{ %s; if (verif_thrown) return %s; }' % (call, retexpr)
+                body = body[:m.start()] + new + body[j + 1:]
+                cnt.hit('R8_after_call_unbraced_if')
+                pos = m.start() + len(new)
             else:
                 # inside an expression / condition: wrap the call itself in a GCC statement expression so that a
                 # throw leaves the function before anything else of the enclosing expression is evaluated
@@ -359,7 +385,8 @@ def rw_methods(body, methods, cnt):
             pos = m.start() + len(b) + 1
             n += 1
         if n == 0:
-            raise ExtractionError('method rule %s=>%s did not fire' % (a, b))
+            cnt.hit('R9_method_rule_idle:%s' % a)   # see rw_calls
+            continue
         cnt.hit('R9_method', n)
     return body
 
@@ -687,6 +714,35 @@ def gen_table(relfile, name, cname, cnt, static=True, asenum=False):
     return '#line %d "%s"\n%s %s;\n' % (ln, relfile, decl, init)
 
 
+def gen_macro(relfile, name, cnt, exc_types):
+    """copy a function-like `#define NAME(args) body` (with continuation lines) from the real source; the body gets the
+    same rewrites as a function body (R8 throws, R6 casts, R3 qualified names)"""
+    src = read_src(relfile)
+    m = re.search(r'^[ \t]*#[ \t]*define[ \t]+%s\(([^)]*)\)' % re.escape(name), src, re.M)
+    if not m:
+        raise ExtractionError('macro %s not found in %s' % (name, relfile))
+    k = m.end()
+    lines = []
+    while True:
+        e = src.find('\n', k)
+        e = len(src) if e < 0 else e
+        ln = src[k:e]
+        k = e + 1
+        if ln.rstrip().endswith('\\'):
+            lines.append(ln.rstrip()[:-1])
+        else:
+            lines.append(ln)
+            break
+    body = '\n'.join(lines)
+    body = rw_throws(body, cnt, exc_types)
+    body = rw_casts(body, cnt)
+    body = rw_quals(body, cnt)
+    check_leftovers(body, 'macro ' + name)
+    cnt.hit('R12_macro')
+    text = '#define %s(%s) %s' % (name, m.group(1), ' \\\n'.join(body.split('\n')))
+    return '#line %d "%s"\n%s\n' % (line_of(src, m.start()), relfile, text)
+
+
 def gen_enum(relfile, enum_name, prefix, cnt, scope=None):
     if prefix == '-':
         prefix = ''
@@ -695,7 +751,11 @@ def gen_enum(relfile, enum_name, prefix, cnt, scope=None):
         src_s = class_body(src, scope)
     else:
         src_s = src
-    m = re.search(r'\benum\s+%s\s*\{' % re.escape(enum_name), src_s)
+    if enum_name.startswith('anon:'):
+        # anonymous enum, identified by its first enumerator:  //@ enum FILE anon:mode_Store PREFIX scope=Class
+        m = re.search(r'\benum\s*\{(?=\s*%s\b)' % re.escape(enum_name[5:]), src_s)
+    else:
+        m = re.search(r'\benum\s+%s\s*\{' % re.escape(enum_name), src_s)
     if not m:
         raise ExtractionError('enum %s not found in %s' % (enum_name, relfile))
     e = match_close(src_s, m.end() - 1, '{', '}')
@@ -769,6 +829,11 @@ def parse_extract_block(text):
             spec['unannotated_ok'] = True
         elif s.startswith('ret '):
             spec['ret'] = s[4:].strip()
+        elif s == 'retself':
+            spec['retself'] = True
+        elif s.startswith('call* '):
+            a, b = s[6:].split('=>')
+            spec['calls'].append((a.strip(), b.strip(), True))
         elif s.startswith('call '):
             a, b = s[5:].split('=>')
             spec['calls'].append((a.strip(), b.strip()))
@@ -801,6 +866,11 @@ def do_extract(spec, cnt, exc_types, info):
     ret = ' '.join(ret.split())
     if 'template' in ret or '<' in ret:
         raise ExtractionError('%s: template function not in subset' % cname)
+    if spec.get('retself'):
+        # R14: a method `Class& m(..)` whose every return is `return *this;` (chaining operators) becomes a void function
+        if not ret.endswith('&'):
+            raise ExtractionError('%s: retself but the return type %r is not a reference' % (cname, ret))
+        ret = 'void'
     dummy = Counter()
     ret = rw_quals(ret, dummy)
     cparams, refs = convert_params(rw_quals(params, dummy), cnt)
@@ -833,6 +903,12 @@ def do_extract(spec, cnt, exc_types, info):
         if n == 0 and not opt:
             raise ExtractionError('%s: sub rule %r did not fire' % (cname, a))
         cnt.hit('sub_rule', n)
+    if spec.get('retself') and not spec['decl_only']:
+        rets = re.findall(r'\breturn\b([^;]*);', body)
+        if not rets or any(r.strip() not in ('*this', '') for r in rets):
+            raise ExtractionError('%s: retself but a return statement is not `return *this;`: %r' % (cname, rets))
+        body = re.sub(r'\breturn\s*\*\s*this\s*;', 'return;', body)
+        cnt.hit('R14_retself', len(rets))
     body = rw_quals(body, cnt)
     body = rw_calls(body, spec['calls'], cnt)
     body = rw_methods(body, spec['methods'], cnt)
@@ -1085,6 +1161,9 @@ def process(template_path):
                     opts['override'] = ov
                 st, names = gen_struct(args[0], args[1], opts, cnt)
                 out.append(st)
+            elif key == 'macro':
+                out.append(gen_macro(args[0], args[1], cnt, exc_types))
+                out.append('#line 1 "unit-after-macro-%s"' % args[1])
             elif key == 'opaque':
                 for a_ in args:
                     out.append('typedef struct %s %s;' % (a_, a_))
